@@ -35,7 +35,11 @@ pub enum Render {
 }
 
 pub fn wrong_atoms() -> Vec<RV> {
-    vec![RV::Nil, RV::Bool(true), RV::Int(7), RV::Float(1.5), RV::Char('c'), RV::str("s"), RV::sym("y"), RV::kw("k"), RV::Bytes(vec![1])]
+    vec![
+        RV::Nil, RV::Bool(true), RV::Int(7), RV::Float(1.5), RV::Char('c'), RV::str("s"), RV::sym("y"), RV::kw("k"), RV::Bytes(vec![1]),
+        // values that an error message has to describe: beyond i64, the most negative, non-finite-free extremes, long multi-byte text
+        RV::Int(u64::MAX as i128), RV::Int(i64::MIN as i128), RV::Float(1.7976931348623157e308), RV::Str(format!("a{}", "€".repeat(40))),
+    ]
 }
 
 impl Sh {
